@@ -340,14 +340,15 @@ func (p *Peer) flushLocked() error {
 	if p.wbuf.Len() == 0 {
 		return p.werr
 	}
-	b := append([]byte(nil), p.wbuf.Bytes()...)
-	p.wbuf.Reset()
 	if p.werr != nil {
+		p.wbuf.Reset()
 		return p.werr
 	}
-	if _, err := p.conn.Write(b); err != nil {
+	// net.Conn.Write must not retain the slice, so no copy is needed.
+	if _, err := p.conn.Write(p.wbuf.Bytes()); err != nil {
 		p.werr = err
 	}
+	p.wbuf.Reset()
 	return p.werr
 }
 
